@@ -7,6 +7,7 @@
 //   - tsm1.UnmarshalPredicate(Marshal()) when proto.Marshal accepts it,
 //   - and, when the tree is in the grammar of the public delete API (tag =/!= "literal",
 //     AND, parentheses), also from its TEXT via predicate.Parse -> predicate.New.
+//
 // Every series key is built the way tsdb.PredicateSeriesIDIterator builds it:
 // models.MakeKey(name, [{\x00 name}] + sorted tags) (optionally with a \xff field tag and/or
 // a "#!~#field" composite-key suffix).  The same predicate objects are reused for all series
@@ -340,19 +341,17 @@ func depth(n *jnode) int {
 // ---- known-finding shapes, decided from the inputs only ----
 
 const (
-	sigEqName = "measurement-name-with-equals-parsed-as-tag"
-	sigBsl    = "series-component-ending-in-backslash"
-	sigSep    = "tag-contains-field-separator"
+	sigBsl = "series-component-ending-in-backslash"
+	sigSep = "tag-contains-field-separator"
 )
 
 func endsBsl(s []byte) bool { return len(s) > 0 && s[len(s)-1] == '\\' }
 
 func sigOf(c *jcase) string {
-	eq, bsl, sep := false, false, false
+	// ('=' in a measurement name is no longer a finding shape: Matches skips the measurement
+	// segment; flavour eqname keeps generating it, any deviation is a VIOLATION again)
+	bsl, sep := false, false
 	for _, s := range c.Series {
-		if strings.Contains(string(s.Name), "=") {
-			eq = true
-		}
 		n := string(s.Name)
 		if endsBsl(s.Name) || strings.Contains(n, "\\,") || strings.Contains(n, "\\ ") {
 			bsl = true
@@ -373,8 +372,6 @@ func sigOf(c *jcase) string {
 		}
 	}
 	switch {
-	case eq:
-		return sigEqName
 	case bsl:
 		return sigBsl
 	case sep:
@@ -433,7 +430,7 @@ func fixed() []jcase {
 		// AND returns needMore as soon as its left side needs more
 		{Flavour: "clean", Pred: *or(and(cmp("eq", "t1", "a"), cmp("eq", "t0", "b")), cmp("neq", "t0", "a")),
 			Series: []jseries{mkSeries("m", "", "t0", "a"), mkSeries("m", "", "t0", "b"), mkSeries("m", "", "t0", "b", "t1", "a"), mkSeries("m", "", "t1", "a")}},
-		// FINDING: '=' in the measurement name: first key segment `a=b` is popped as tag a = b
+		// former finding (repaired): '=' in the measurement name; the first key segment `a=b` used to be popped as tag a = b
 		{Flavour: "eqname", Note: "measurement a=b, predicate a = \"b\"", Pred: *cmp("eq", "a", "b"),
 			Series: []jseries{mkSeries("a=b", "", "t0", "1"), mkSeries("a=b", "", "a", "c"), mkSeries("m", "", "a", "b")}},
 		{Flavour: "eqname", Pred: *cmp("neq", "a", "c"),
@@ -465,7 +462,7 @@ var (
 
 func main() {
 	w := vh.New("C16", "From Verif Require Import Base.Prelude Model.C16.", "case", "check")
-	w.Rule = "one case = one predicate (depth<=3 tree of comparisons joined by AND/OR; leaves: tag ref (t0,t1,escape-heavy keys, \\x00=_measurement, \\xff=_field, a key equal to a measurement name) =,!= (mostly), starts/lt/le/gt/ge, regex =~ !~ (Go regexp answers shipped as oracle table), occasionally literal-vs-tag or tag-vs-tag, occasionally an invalid regex/op combination) x 1-6 series (measurement from an escape-heavy set, 0-3 sorted tags over the same keys with values from {a, 'a b', 'a,b', 'a=b', 'a\\b', ...}, optional \\xff field tag, optional #!~#field suffix). Flavours: clean (well-formed series), eqname ('=' in the measurement name: known finding), bsl (a component ends in a backslash: known finding), sep ('#!~#' in a tag: known finding). Hand-picked cases first. Non-trivial: the predicate matches some series of the case and not another. Distinct: distinct Gallina terms."
+	w.Rule = "one case = one predicate (depth<=3 tree of comparisons joined by AND/OR; leaves: tag ref (t0,t1,escape-heavy keys, \\x00=_measurement, \\xff=_field, a key equal to a measurement name) =,!= (mostly), starts/lt/le/gt/ge, regex =~ !~ (Go regexp answers shipped as oracle table), occasionally literal-vs-tag or tag-vs-tag, occasionally an invalid regex/op combination) x 1-6 series (measurement from an escape-heavy set, 0-3 sorted tags over the same keys with values from {a, 'a b', 'a,b', 'a=b', 'a\\b', ...}, optional \\xff field tag, optional #!~#field suffix). Flavours: clean (well-formed series), eqname ('=' in the measurement name: repaired finding, judged like any other series), bsl (a component ends in a backslash: known finding), sep ('#!~#' in a tag: known finding). Hand-picked cases first. Non-trivial: the predicate matches some series of the case and not another. Distinct: distinct Gallina terms."
 	var rc jcase
 	if w.ReplayCase(&rc) {
 		for i := range rc.Series {
